@@ -51,6 +51,11 @@ CLAIMED = {
          "Per record the bound forms (set/define nested both ways, --set, --set @) must equal the harness-substituted expression; (| a b [c]) must equal b applied to a's value with the input as parent (two independent formulations); k copies of one expression among other selections (after --split-by/--filter) must agree.",
          "Trusted: the harness' substitution function (60 lines, unit-tested); macros are never recursive; ^^ inside pipe stages not generated (unspecified).",
          "DESIGN.md §3 C12"),
+ "C13": ("exploration",
+         "metamorphic property-based testing: the per-record value shown by --select is the reference for what --filter/--sort-by/--group-by/--split-by/--set do with the same expression; alias, separator, padding, dot-sugar and regex-cache-size variants must give byte-identical output (regex results also compared with the regex crate); /name/ compared with a variable binding",
+         "One generated expression, five option positions plus macro and variable: kept ids, sorted ids (specified total order, stable), grouping, split elements and macro/variable values must all follow from the --select values. Every alias of every pure function is enumerated with generated arguments; spelling variants and cache sizes 0,1,2,3,64 must not change a byte.",
+         "Trusted: the stage models (filter = value is true, sort = C07 order, group = string keys first-seen, split = array elements), the regex crate as reference engine; order between different objects not checked.",
+         "DESIGN.md §3 C13"),
  "C14": ("exploration",
          "property-based testing with an instrumented endless reader (byte budget oracle, no clock) and a FIFO fed by a counting writer thread",
          "For every generated streaming pipeline in front of --take and every finite prefix followed by an endless stream of qualifying values, jawk must return Ok with exactly the rows of a finite reference run while pulling fewer bytes than a fixed budget past the value that produced the last row. Liveness turned into a bounded safety check.",
